@@ -159,8 +159,10 @@ namespace cdsv {
     };
     inline Args& args() { static Args a; return a; }
 
+    inline void start_heartbeat();
     inline void parse_args( int argc, char** argv )
     {
+        start_heartbeat();
         Args& a = args();
         if ( const char* e = getenv( "VERIF_SEED" )) a.seed = strtoull( e, nullptr, 10 );
         for ( int i = 1; i < argc; ++i ) {
@@ -250,6 +252,27 @@ namespace cdsv {
         if ( it == r.props.end())
             it = r.props.emplace( id, new PropStats ).first;
         return *it->second;
+    }
+
+    // Heartbeat for check.py's process-level wall-clock watchdog: every 5 s one line "@@beat <seconds> <logical clock> <evaluations>".
+    // A process that is killed by that watchdog while the last beats still show progress was slow (inconclusive), not hung.
+    inline void start_heartbeat()
+    {
+        static std::atomic<bool> started{ false };
+        if ( started.exchange( true )) return;
+        std::thread( []() {
+            for (;;) {
+                timespec ts; ts.tv_sec = 5; ts.tv_nsec = 0; nanosleep( &ts, nullptr );
+                uint64_t ev = 0;
+                Registry& r = reg();
+                {
+                    std::unique_lock<std::mutex> g( r.mtx, std::try_to_lock );
+                    if ( !g.owns_lock()) continue;
+                    for ( auto& p : r.props ) ev += p.second->evaluations.load( std::memory_order_relaxed ) + p.second->operations.load( std::memory_order_relaxed );
+                }
+                fprintf( stderr, "@@beat %.0f %llu %llu\n", wall_now() - r.t0, ( unsigned long long ) clock_ref().load( std::memory_order_relaxed ), ( unsigned long long ) ev );
+            }
+        } ).detach();
     }
 
     // Report a violation. key: stable identifier of the failure class (used for known-findings matching);
